@@ -70,6 +70,8 @@ type Report struct {
 	inconcl    []string
 	queries    int
 	solverMS   int64
+	maxQueryMS int64
+	queryTOs   int64
 	loadMS     int64
 	wall       float64
 	samples    []Sample
@@ -410,6 +412,8 @@ func (r *Report) finish(all []*HarnessResult, g *genFiles) int {
 		"harnesses":                     r.harnesses,
 		"bounds":                        r.cfg.Bounds[tier],
 		"solver_ms_total":               r.solverMS,
+		"solver_ms_slowest_query":       r.maxQueryMS,
+		"solver_timeout_s_per_query":    r.queryTOs,
 		"load_ssa_ms":                   r.loadMS,
 		"source_hashes":                 srcHash,
 		"known_findings_matched":        r.knownHit,
@@ -435,7 +439,7 @@ func (r *Report) finish(all []*HarnessResult, g *genFiles) int {
 		os.MkdirAll(filepath.Join(verifDir, "evidence"), 0o755)
 		os.WriteFile(filepath.Join(verifDir, "evidence", r.cfg.ID+".json"), b, 0o644)
 	}
-	fmt.Printf("%s %s: %d obligations, %d discharged (%d non-trivial), %d queries, solver %d ms, validated traces %d, wall %.1fs, exit %d\n",
-		r.cfg.ID, tier, r.obls, r.discharged, r.nontrivial, r.queries, r.solverMS, r.validated, r.wall, code)
+	fmt.Printf("%s %s: %d obligations, %d discharged (%d non-trivial), %d queries, solver %d ms (slowest %d ms, limit %d s), validated traces %d, wall %.1fs, exit %d\n",
+		r.cfg.ID, tier, r.obls, r.discharged, r.nontrivial, r.queries, r.solverMS, r.maxQueryMS, r.queryTOs, r.validated, r.wall, code)
 	return code
 }
